@@ -261,6 +261,7 @@ fn reference(pr: &Prob) -> Option<Reference> {
 
 struct Data {
     x: Mat,
+    xp: Mat, // rows predict() is evaluated on: the training rows followed by three unseen rows
     y: Vec<f64>,
     n: usize,
     p: usize,
@@ -321,7 +322,9 @@ fn draw_data(c: &mut Case) -> Option<Data> {
     c.bucket(if n <= p + 3 { "n:p+1..p+3" } else if n <= 20 { "n:<=20" } else { "n:21..60" });
     c.bucket(mean_class);
     c.bucket(if cz > 100.0 { "cond(std design):100..1e3" } else if cz > 10.0 { "cond(std design):10..100" } else { "cond(std design):<=10" });
-    Some(Data { x, y, n, p, spread, mean_class })
+    let extra = Mat::from_fn(3, p, |_, j| x.at(c.rng.below(n), j) * c.rng.uni(-2.0, 2.0));
+    let xp = x.vstack(&extra);
+    Some(Data { x, xp, y, n, p, spread, mean_class })
 }
 
 #[derive(Clone, Copy)]
@@ -368,7 +371,7 @@ fn norm_name(b: bool) -> &'static str {
 }
 
 fn describe(c: &mut Case, op: &str, d: &Data, cfg: &Cfg, extra: Value) {
-    c.describe(json!({"op": op, "X": mat_json(&d.x), "y": d.y, "alpha": cfg.alpha, "l1_ratio": cfg.rho, "tol": cfg.tol,
+    c.describe(json!({"op": op, "X": mat_json(&d.x), "predict_extra_rows": mat_json(&d.xp.slice(d.n, d.xp.r, 0, d.p)), "y": d.y, "alpha": cfg.alpha, "l1_ratio": cfg.rho, "tol": cfg.tol,
         "normalize": cfg.normalize, "max_iter": 1000, "extra": extra}));
 }
 
@@ -379,7 +382,7 @@ fn describe(c: &mut Case, op: &str, d: &Data, cfg: &Cfg, extra: Value) {
 struct Fit {
     w: Vec<f64>, // raw coefficients as returned
     b: f64,
-    pred: Vec<f64>, // predict(X)
+    pred: Vec<f64>, // predict(xp)
 }
 
 #[derive(Clone, Copy, PartialEq)]
@@ -418,8 +421,9 @@ fn must_sig<T>(c: &mut Case, what: &str, sig: &str, f: impl FnOnce() -> T) -> Op
 
 /// Runs fit + accessors + predict(X) under the step budget. Outer None: panic / budget (already
 /// recorded as a violation by `must`); inner Err: the library returned Err.
-fn run_fit(c: &mut Case, model: Model, x: &Mat, y: &[f64], cfg: &Cfg, max_iter: usize, sg: &str) -> Option<Result<Fit, String>> {
+fn run_fit(c: &mut Case, model: Model, x: &Mat, xp: &Mat, y: &[f64], cfg: &Cfg, max_iter: usize, sg: &str) -> Option<Result<Fit, String>> {
     let xm: DenseMatrix<f64> = to_dense(x);
+    let xpm: DenseMatrix<f64> = to_dense(xp);
     let yv: Vec<f64> = y.to_vec();
     let what = match model {
         Model::Lasso => "Lasso::fit",
@@ -429,11 +433,11 @@ fn run_fit(c: &mut Case, model: Model, x: &Mat, y: &[f64], cfg: &Cfg, max_iter: 
     let r = must_sig(c, what, sg, || match model {
         Model::Lasso => Lasso::fit(&xm, &yv, LassoParameters { alpha: cfg.alpha, normalize: cfg.normalize, tol: cfg.tol, max_iter }).map(|m| {
             let w = from_m(m.coefficients());
-            (w, m.intercept(), m.predict(&xm))
+            (w, m.intercept(), m.predict(&xpm))
         }),
         Model::Enet => ElasticNet::fit(&xm, &yv, ElasticNetParameters { alpha: cfg.alpha, l1_ratio: cfg.rho, normalize: cfg.normalize, tol: cfg.tol, max_iter }).map(|m| {
             let w = from_m(m.coefficients());
-            (w, m.intercept(), m.predict(&xm))
+            (w, m.intercept(), m.predict(&xpm))
         }),
     });
     smartcore::verif::set_step_budget(u64::MAX);
@@ -454,8 +458,8 @@ fn run_fit(c: &mut Case, model: Model, x: &Mat, y: &[f64], cfg: &Cfg, max_iter: 
 }
 
 /// fit that the property requires to succeed
-fn fit_ok(c: &mut Case, model: Model, x: &Mat, y: &[f64], cfg: &Cfg, sg: &str) -> Option<Fit> {
-    match run_fit(c, model, x, y, cfg, 1000, sg)? {
+fn fit_ok(c: &mut Case, model: Model, d: &Data, y: &[f64], cfg: &Cfg, sg: &str) -> Option<Fit> {
+    match run_fit(c, model, &d.x, &d.xp, y, cfg, 1000, sg)? {
         Ok(f) => {
             c.check(&format!("{}.fit-ok", model.name()), true, sg, String::new);
             let fin = f.w.iter().all(|v| v.is_finite()) && f.b.is_finite() && f.pred.iter().all(|v| v.is_finite());
@@ -508,19 +512,19 @@ fn check_fit(c: &mut Case, model: Model, d: &Data, pr: &Prob, rf: &Reference, cf
     let bexp = pr.ybar - csum(terms.iter().cloned());
     let bscale = ymax + csum(terms.iter().map(|t| t.abs()));
     c.ratio(&format!("{}.intercept-mapping", m), (f.b - bexp).abs(), 1e-10 * bscale, sg, || format!("intercept {:e}, expected mean(y) - sum w_j*mean_j = {:e}", f.b, bexp));
-    // predict(X) = X·w + b
+    // predict(X') = X'·w + b on the training rows and three unseen rows
     let mut worst = 0.0f64;
-    let ok_len = f.pred.len() == d.n;
-    c.check(&format!("{}.predict-len", m), ok_len, sg, || format!("predict returned {} values for {} rows", f.pred.len(), d.n));
+    let ok_len = f.pred.len() == d.xp.r;
+    c.check(&format!("{}.predict-len", m), ok_len, sg, || format!("predict returned {} values for {} rows", f.pred.len(), d.xp.r));
     if ok_len {
-        for i in 0..d.n {
-            let ts: Vec<f64> = (0..pr.p).map(|j| d.x.at(i, j) * f.w[j]).collect();
+        for i in 0..d.xp.r {
+            let ts: Vec<f64> = (0..pr.p).map(|j| d.xp.at(i, j) * f.w[j]).collect();
             let e = csum(ts.iter().cloned().chain(std::iter::once(f.b)));
             let sc = csum(ts.iter().map(|t| t.abs())) + f.b.abs();
             let r = if sc > 0.0 { (f.pred[i] - e).abs() / sc } else { (f.pred[i] - e).abs() };
             worst = worst.max(r);
         }
-        c.ratio(&format!("{}.predict=Xw+b", m), worst, 1e-10, sg, || "max_i |predict(X)_i − (x_i·w + b)| / (Σ|x_ij·w_j| + |b|)".into());
+        c.ratio(&format!("{}.predict=Xw+b", m), worst, 1e-10, sg, || "max_i |predict(X')_i − (x'_i·w + b)| / (Σ|x'_ij·w_j| + |b|)".into());
     }
     let nz = rf.w.iter().filter(|v| **v != 0.0).count();
     c.bucket(if nz == 0 { "optimum:all-zero" } else if nz < pr.p { "optimum:sparse" } else { "optimum:dense" });
@@ -579,7 +583,7 @@ fn one_model(c: &mut Case, model: Model) {
         Some(r) => r,
         None => return,
     };
-    if let Some(f) = fit_ok(c, model, &d.x, &d.y, &cfg, &sg) {
+    if let Some(f) = fit_ok(c, model, &d, &d.y, &cfg, &sg) {
         c.nontrivial();
         check_fit(c, model, &d, &pr, &rf, &cfg, &f, &sg);
     }
@@ -615,8 +619,8 @@ fn enet_rho1(c: &mut Case) {
         Some(r) => r,
         None => return,
     };
-    let fe = fit_ok(c, Model::Enet, &d.x, &d.y, &cfg, &sg);
-    let fl = fit_ok(c, Model::Lasso, &d.x, &d.y, &cfg, &sig_of(Model::Lasso, &d, &cfg));
+    let fe = fit_ok(c, Model::Enet, &d, &d.y, &cfg, &sg);
+    let fl = fit_ok(c, Model::Lasso, &d, &d.y, &cfg, &sig_of(Model::Lasso, &d, &cfg));
     if let Some(fe) = &fe {
         c.nontrivial();
         // the Lasso objective of the elastic-net fit is within the Lasso tolerance of the Lasso optimum
@@ -667,8 +671,8 @@ fn shift(c: &mut Case, model: Model) {
         Some(r) => r,
         None => return,
     };
-    let f1 = fit_ok(c, model, &d.x, &d.y, &cfg, &sg);
-    let f2 = fit_ok(c, model, &d.x, &y2, &cfg, &sg);
+    let f1 = fit_ok(c, model, &d, &d.y, &cfg, &sg);
+    let f2 = fit_ok(c, model, &d, &y2, &cfg, &sg);
     let (f1, f2) = match (f1, f2) {
         (Some(a), Some(b)) => (a, b),
         _ => return,
@@ -729,7 +733,7 @@ fn constant_target(c: &mut Case) {
     c.nontrivial();
     let sg = format!("{}/constant-target", model.name());
     let pr = Prob::new(&d.x, &d.y, cfg.normalize, cfg.alpha, cfg.rho);
-    if let Some(f) = fit_ok(c, model, &d.x, &d.y, &cfg, &sg) {
+    if let Some(f) = fit_ok(c, model, &d, &d.y, &cfg, &sg) {
         let fval = pr.primal(&wz(&pr, &f.w));
         c.ratio(&format!("{}.constant-target.objective", model.name()), fval, 1e-10 * d.n as f64 * v * v, &sg, || {
             format!("objective of the returned coefficients {:?} for the constant target {} (minimum 0 at w = 0)", f.w, v)
@@ -813,7 +817,7 @@ fn invalid(c: &mut Case) {
     c.describe(json!({"op": "lasso invalid setting", "kind": sg, "X": mat_json(&xi), "y": yi, "alpha": cfg.alpha.to_string(), "tol": cfg.tol.to_string(),
         "normalize": cfg.normalize, "max_iter": max_iter}));
     c.nontrivial();
-    if let Some(r) = run_fit(c, Model::Lasso, &xi, &yi, &cfg, max_iter, &sg) {
+    if let Some(r) = run_fit(c, Model::Lasso, &xi, &xi, &yi, &cfg, max_iter, &sg) {
         c.check("lasso.invalid-setting-is-Err", r.is_err(), &sg, || {
             let f = r.as_ref().ok().unwrap();
             format!("Lasso::fit returned Ok for an invalid setting ({}); coefficients {:?}, intercept {:e}", sg, f.w, f.b)
@@ -833,15 +837,15 @@ fn main() {
             "alpha = 0 and constant targets (F* = 0, relative tolerance undefined) are outside the quantifier and are not generated",
         ],
         families: vec![
-            Family::new("lasso", 1500, 30000, lasso),
-            Family::new("enet", 1500, 30000, enet),
-            Family::new("enet_rho1", 500, 10000, enet_rho1),
-            Family::new("lasso_shift", 600, 12000, lasso_shift),
-            Family::new("enet_shift", 900, 18000, enet_shift),
+            Family::new("lasso", 2000, 30000, lasso),
+            Family::new("enet", 2000, 30000, enet),
+            Family::new("enet_rho1", 700, 10000, enet_rho1),
+            Family::new("lasso_shift", 800, 12000, lasso_shift),
+            Family::new("enet_shift", 1200, 18000, enet_shift),
             Family::new("constant_target", 40, 300, constant_target),
             Family::new("invalid", 600, 6000, invalid),
         ],
-        min_nontrivial: 800,
+        min_nontrivial: 1000,
         case_timeout_s: 120,
     });
 }
